@@ -32,6 +32,7 @@ RULES = {
     'R4': 'Slicing results feed a switch at every call site',
     'R5': 'delta completeness: index/balance/delta written together in the ingestion writers (= C01.R4)',
     'R6': 'slicing-independent bookkeeping: header stored before ingestion starts (= C03.R2), height advanced on completion (= C03.R1)',
+    'R7': 'the header endpoint reads the stable store strictly below the stable height: the in-progress block is served from the unstable blocks (= C07.R1)',
 }
 ASSUMPTIONS = ['the metrics endpoint reports raw diagnostic gauges (documented); it is excluded from R1']
 US = 'ic_btc_canister::utxo_set::UtxoSet'
@@ -55,6 +56,11 @@ def run(ctx):
     c03.r2(SubCtx(ctx, {'R2': 'R6'}))
     c03.r1(SubCtx(ctx, {'R1': 'R6'}))
     r6(ctx)
+    # R7: the header of the block being ingested is already in the stable store; the header endpoint
+    # must keep serving that height from the unstable blocks only, or answers change between rounds
+    # (shared with C07.R1)
+    from rules import c07
+    c07.run(SubCtx(ctx, {'R1': 'R7'}))
 
 
 def r1(ctx):
@@ -204,9 +210,9 @@ def r2(ctx):
                   '%s can run in a round in which ingestion paused or did work (conditions: %s)' % (c.short.rsplit('::', 1)[-1], fmt_conds(conds)[:200]))
     w = ctx.fn('R2', 'ic_btc_canister::heartbeat::ingest_stable_blocks_into_utxoset')
     if w:
-        cs = [c for c in w.calls_to('ic_btc_canister::with_state_mut') if not c.cleanup]
-        good = bool(cs) and 'ic_btc_canister::state::ingest_stable_blocks_into_utxoset' in cs[0].fn_args()
-        ctx.check(good, 'R2', 'wrapper', w, 'the heartbeat\'s ingestion step is state::ingest_stable_blocks_into_utxoset', 'heartbeat ingestion wrapper calls something else')
+        from rules.walks import ingestion_wrapper_direct
+        good, why = ingestion_wrapper_direct(prog, w)
+        ctx.check(good, 'R2', 'wrapper', w, 'the heartbeat\'s ingestion step is state::ingest_stable_blocks_into_utxoset, unconditionally', 'heartbeat ingestion wrapper does something else (%s)' % why)
     require_callers(ctx, 'R2', 'callers:insert_block', ['ic_btc_canister::state::insert_block'], {'ic_btc_canister::heartbeat::maybe_process_response'})
 
 
